@@ -101,11 +101,8 @@ func (s *mateShape) parentGene(v ssa.Value) (int, ssa.Value) {
 	for _, a := range lt.Alternatives() {
 		w := 0
 		if a.Op == "field" && a.Name == "Genes" {
-			if a.Args[0].Op == "recv" {
-				w = 1
-			} else if isParamIdx(a.Args[0], 1) {
-				w = 2
-			}
+			// the receiver or the other parent, directly or read back from the write-once cell a captured variable lives in
+			w = c04ParentOf(s.tm, a.Args[0])
 		}
 		if w == 0 {
 			return 0, nil
@@ -1266,6 +1263,14 @@ func (r *Run) c04Seeding(s *mateShape) {
 		for name, val := range roles {
 			feasible := true
 			for _, g := range ip.Conds {
+				// a test of the node's role, however it is spelled (named boolean, negation, && / || joined in a phi): its
+				// value for this role is computed along the path
+				if holds, known := c04RoleTest(tm, ip, g.Cond, src, isSensor, name, roles, 0); known {
+					if holds != g.True {
+						feasible = false
+					}
+					continue
+				}
 				if b, ok := g.Cond.(*ssa.BinOp); ok && (b.Op == token.EQL || b.Op == token.NEQ) {
 					x, y := tm.Of(b.X), tm.Of(b.Y)
 					if fieldChainOn(x, src, "NeuronType") && y.Op == "const" {
